@@ -134,6 +134,9 @@ func lenBase(v ssa.Value) ssa.Value {
 	if r := paramFieldRep(v); r != nil {
 		v = r
 	}
+	if r := fieldValueRep(v); r != nil {
+		v = r
+	}
 	for {
 		if r := storeFwd(v); r != nil {
 			v = r
@@ -3151,6 +3154,69 @@ func paramFieldRep(v ssa.Value) ssa.Value {
 	rep := loads[0]
 	for _, l := range loads {
 		paramFieldRepCache[l] = rep
+	}
+	return rep
+}
+
+// fieldValueRep: loads of one field path of one object (a parsed message, a local) denote the same value when the
+// function never stores to that field of any object of the type and never hands the object to a call other than
+// the read-only marshal/equal helpers: the representative is the first such load.
+var fieldValueRepCache = map[ssa.Value]ssa.Value{}
+
+func fieldValueRep(v ssa.Value) ssa.Value {
+	ld, ok := v.(*ssa.UnOp)
+	if !ok || ld.Op != token.MUL {
+		return nil
+	}
+	fa, ok := ld.X.(*ssa.FieldAddr)
+	if !ok {
+		return nil
+	}
+	if r, ok := fieldValueRepCache[v]; ok {
+		return r
+	}
+	fieldValueRepCache[v] = nil
+	key := addrKey(ld)
+	if key == "" {
+		return nil
+	}
+	root := addrRoot(ld)
+	if _, isParam := root.(*ssa.Parameter); isParam {
+		return nil // paramFieldRep handles parameters
+	}
+	f := ld.Parent()
+	if f == nil {
+		return nil
+	}
+	clean := true
+	var loads []*ssa.UnOp
+	instrsOf(f, func(_ *ssa.BasicBlock, in ssa.Instruction) {
+		switch x := in.(type) {
+		case *ssa.Store:
+			if fx, ok := x.Addr.(*ssa.FieldAddr); ok && fx.Field == fa.Field && fx.X.Type() == fa.X.Type() {
+				clean = false
+			}
+		case ssa.CallInstruction:
+			for _, a := range x.Common().Args {
+				if a == root {
+					if sc := x.Common().StaticCallee(); sc != nil && (sc.Name() == "marshal" || sc.Name() == "equal") {
+						continue
+					}
+					clean = false
+				}
+			}
+		case *ssa.UnOp:
+			if x.Op == token.MUL && addrKey(x) == key {
+				loads = append(loads, x)
+			}
+		}
+	})
+	if !clean || len(loads) == 0 {
+		return nil
+	}
+	rep := loads[0]
+	for _, l := range loads {
+		fieldValueRepCache[l] = rep
 	}
 	return rep
 }
